@@ -322,7 +322,17 @@ func c11Run(c *run.Ctx, nReq, nPing int, script []string, yields bool) {
 		}
 		if cls["ErrMax"] {
 			if r.Kind != "ping" {
-				bad("errmax-below-slot-limit", fmt.Sprintf("returned %q with %d requests in total", err, len(all)))
+				// "a large number of slots": refusal is in order with hundreds of other
+				// requests in flight during the call, and only then
+				others := 0
+				for _, o := range all {
+					if o != r && o.Kind != "ping" && o.Call.CallSeq < ret && (o.Call.RetSeq == 0 || o.Call.RetSeq > r.Call.CallSeq) && !errors.Is(o.Call.Err, mqtt.ErrMax) {
+						others++
+					}
+				}
+				if others < 256 {
+					bad("errmax-below-slot-limit", fmt.Sprintf("returned %q with only %d other subscribe/unsubscribe requests in flight during the call", err, others))
+				}
 				continue
 			}
 			overlap := false
@@ -741,7 +751,7 @@ func init() {
 			return 1200
 		},
 		ChunkSize:   40,
-		Rule:        "each case issues 2-40 (thorough: up to 512) concurrent Subscribe/SubscribeLimit*/Unsubscribe calls with unique filters (so request <-> packet identifier is read off the wire) plus 0-4 Ping calls, a quarter with a quit channel; the reference broker withholds every response and a PRNG script of 3-10 steps then answers subsets in random order, duplicates a response, sends unsolicited SUBACK/UNSUBACK/PINGRESP of the right spaces, fails random filter subsets with 0x80, sends a SUBACK with an illegal code or a surplus code for a pending request, breaks the connection, fires quits, issues more requests, calls Close; random yields/sleeps at the Ping hook points; finally everything still answerable is answered. Every 10th case drives the Ping slot hand-over window deterministically through the hook points ping.writefail / ping.quit (park the releasing Ping, let the read routine clear the slot, let a second Ping install, continue). Every 10th case issues 2-8 requests (all kinds, half with a quit) while a reconnect attempt is held pending for 45-85 ms, fires some quits while it is pending (ErrCanceled), then lets the attempt fail by dial error, refusal or missing CONNACK with no further attempt: every request returns ErrDown. Oracle per call, by logical-time intervals: it returns; nil only with a success response for ITS identifier delivered before the return; SubscribeError with exactly the filters its SUBACK failed, in order; ErrSubmit/ErrBreak/ErrDown only with a connection lost (or Close) before the return; ErrCanceled/ErrAbandoned only after its quit fired; ErrClosed only after Close; ErrMax for Ping only with another Ping in flight, never for the others below the slot limit; successful Pings <= PINGRESPs delivered. Non-trivial: >= 2 requests racing responses or a loss; distinct by request counts and script.",
+		Rule:        "each case issues 2-40 (thorough: up to 512) concurrent Subscribe/SubscribeLimit*/Unsubscribe calls with unique filters (so request <-> packet identifier is read off the wire) plus 0-4 Ping calls, a quarter with a quit channel; the reference broker withholds every response and a PRNG script of 3-10 steps then answers subsets in random order, duplicates a response, sends unsolicited SUBACK/UNSUBACK/PINGRESP of the right spaces, fails random filter subsets with 0x80, sends a SUBACK with an illegal code or a surplus code for a pending request, breaks the connection, fires quits, issues more requests, calls Close; random yields/sleeps at the Ping hook points; finally everything still answerable is answered. Every 10th case drives the Ping slot hand-over window deterministically through the hook points ping.writefail / ping.quit (park the releasing Ping, let the read routine clear the slot, let a second Ping install, continue). Every 10th case issues 2-8 requests (all kinds, half with a quit) while a reconnect attempt is held pending for 45-85 ms, fires some quits while it is pending (ErrCanceled), then lets the attempt fail by dial error, refusal or missing CONNACK with no further attempt: every request returns ErrDown. Oracle per call, by logical-time intervals: it returns; nil only with a success response for ITS identifier delivered before the return; SubscribeError with exactly the filters its SUBACK failed, in order; ErrSubmit/ErrBreak/ErrDown only with a connection lost (or Close) before the return; ErrCanceled/ErrAbandoned only after its quit fired; ErrClosed only after Close; ErrMax for Ping only with another Ping in flight, for the others only with hundreds of them in flight during the call; successful Pings <= PINGRESPs delivered. Non-trivial: >= 2 requests racing responses or a loss; distinct by request counts and script.",
 		Assumptions: []string{"overlapping calls are judged by interval: a result is accepted when legal for some order of the critical events inside [call, return]", "porcupine is not used here: requests share no state beyond the slot count, which is checked by interval overlap"},
 		Run: func(c *run.Ctx) {
 			if c.Case%10 == 9 {
